@@ -131,8 +131,10 @@ def run(ctx, R, tier):
                                         isinstance(n, ast.BinOp) and isinstance(n.op, ast.Add) and isinstance(n.left, ast.BinOp) and
                                         isinstance(n.left.right, ast.Constant) and n.left.right.value == ":" for n in walk_no_nested(st_.node))
     R.check(okp, "C19-R3", "protocol-separator", "protocol and object are joined with the ':' the regex expects", st_.loc(), "protocol separator mismatch")
-    pr_branch = [n for n in walk_no_nested(loc.node) if isinstance(n, (ast.If, ast.IfExp)) and isinstance(n.test, ast.Compare) and isinstance(n.test.ops[0], ast.In) and
-                 isinstance(n.test.left, ast.Constant) and n.test.left.value == ":" and "host" in unparse(n.test.comparators[0])]
+    from ..engine.guards import strip_not
+    pr_branch = [n for n in walk_no_nested(loc.node) if isinstance(n, (ast.If, ast.IfExp)) and isinstance(strip_not(n.test)[0], ast.Compare) and
+                 isinstance(strip_not(n.test)[0].ops[0], (ast.In, ast.NotIn)) and
+                 isinstance(strip_not(n.test)[0].left, ast.Constant) and strip_not(n.test)[0].left.value == ":" and "host" in unparse(strip_not(n.test)[0].comparators[0])]
     fmts = [n.left.value for n in walk_no_nested(loc.node) if isinstance(n, ast.BinOp) and isinstance(n.op, ast.Mod) and isinstance(n.left, ast.Constant)]
     pa_branch = [n for n in walk_no_nested(pl.node) if isinstance(n, ast.Call) and isinstance(n.func, ast.Attribute) and n.func.attr == "startswith" and n.args and
                  isinstance(n.args[0], ast.Constant) and n.args[0].value == "["]
